@@ -423,6 +423,9 @@ class Consumer(object):
         # Are we waiting for a request to come back?
         if self._request_d:
             self._request_d.cancel()
+            # A reply parked behind processing has already fired, so cancelling it does
+            # nothing: forget it, or a later start() would wait for it forever.
+            self._request_d = None
         # Are we working our way through a block of messages?
         if self._msg_block_d:
             # Need to add a cancel handler...
